@@ -92,8 +92,9 @@ type Event struct {
 
 // Sim is one simulated execution.
 type Sim struct {
-	tickLag      bool // ticker values suffer drawn delays (SetTickLag)
-	tickNoSkip   bool // late tickers do not skip missed periods (SetTickNoSkip)
+	tickLag      bool        // ticker values suffer drawn delays (SetTickLag)
+	pools        []poolState // contents of the simulated sync.Pools, per run
+	tickNoSkip   bool        // late tickers do not skip missed periods (SetTickNoSkip)
 	mu           sync.Mutex
 	cfg          Config
 	tasks        []*Task
@@ -892,4 +893,39 @@ func Site(skip int) string {
 		siteCache.put(uint64(pc), len(siteNames)-1)
 	}
 	return v
+}
+
+type poolState struct {
+	key   any
+	items []any
+}
+
+// PoolGet pops the most recently put object of the pool identified by key (this run only).
+func PoolGet(key any) (any, bool) {
+	s := S
+	for i := range s.pools {
+		if s.pools[i].key == key {
+			it := s.pools[i].items
+			if n := len(it); n > 0 {
+				x := it[n-1]
+				it[n-1] = nil
+				s.pools[i].items = it[:n-1]
+				return x, true
+			}
+			return nil, false
+		}
+	}
+	return nil, false
+}
+
+// PoolPut pushes x on the pool identified by key.
+func PoolPut(key any, x any) {
+	s := S
+	for i := range s.pools {
+		if s.pools[i].key == key {
+			s.pools[i].items = push(s.pools[i].items, x)
+			return
+		}
+	}
+	s.pools = push(s.pools, poolState{key: key, items: push([]any(nil), x)})
 }
